@@ -5,6 +5,8 @@
 //!       cases = [{"I": secs, "T": secs, "order": "it"|"ti", "delays": [d | -1, ...], "horizon": secs}, ...]
 //!       (0 = disabled; "it" = keepalive_interval() then keepalive_timeout(), "ti" = the other order;
 //!        delays[k] = delay of the Pong answering the k-th Ping, -1 = never, missing = never)
+//!        optional "chatter": n > 0 = every n seconds the peer sends a message that is NOT a Pong (alternately its own
+//!        Ping and a Reset frame for an unknown flow): only Pongs are signs of life, so nothing may change
 //!   keepalive_sim random <seed> <count> <out.ndjson>
 //!
 //! Output: per case a `case` line, then `ping` / `pong` / `exit` lines stamped with virtual time and an
@@ -16,6 +18,7 @@ use penguin_mux::ws::{Message, WebSocket};
 use penguin_mux::Multiplexor;
 use rand::rngs::SmallRng;
 use rand::{RngExt, SeedableRng};
+use bytes::Bytes;
 use serde_json::{Value, json};
 use std::collections::VecDeque;
 use std::io::Write;
@@ -99,7 +102,8 @@ async fn run_case(case: &Value, out: &mut Vec<Value>) {
     let order = case["order"].as_str().unwrap_or("it");
     let horizon = case["horizon"].as_u64().unwrap_or(12);
     let delays: Vec<i64> = case["delays"].as_array().map(|a| a.iter().map(|x| x.as_i64().unwrap_or(-1)).collect()).unwrap_or_default();
-    out.push(json!({"ev": "case", "I": i, "T": t, "order": order, "delays": delays, "horizon": horizon}));
+    let chatter = case["chatter"].as_u64().unwrap_or(0);
+    out.push(json!({"ev": "case", "I": i, "T": t, "order": order, "delays": delays, "horizon": horizon, "chatter": chatter}));
     let options = if order == "ti" {
         Options::new().keepalive_timeout(dur(t)).keepalive_interval(dur(i))
     } else {
@@ -186,6 +190,19 @@ async fn run_case(case: &Value, out: &mut Vec<Value>) {
         }
         tokio::time::sleep(Duration::from_secs(1)).await;
         sec += 1;
+        if chatter > 0 && sec % chatter == 0 && !handle.is_finished() {
+            // traffic from the peer that is not a Pong
+            let kind = if (sec / chatter) % 2 == 0 { "ping" } else { "reset" };
+            let msg = if kind == "ping" { Message::Ping } else { Message::Binary(Bytes::from_static(&[0x72, 0, 0, 0, 99])) };
+            let mut s = shared.lock().unwrap();
+            s.inbox.push_back(msg);
+            if let Some(w) = s.waker.take() {
+                w.wake();
+            }
+            drop(s);
+            let t_now = now_ms(start);
+            out.push(json!({"ev": "chatter", "t": t_now / 1000, "frac": t_now % 1000, "kind": kind}));
+        }
     }
     settle().await;
     if handle.is_finished() {
@@ -208,6 +225,11 @@ async fn run_case(case: &Value, out: &mut Vec<Value>) {
     drop(mux);
 }
 
+fn pick_chatter(rng: &mut SmallRng) -> u64 {
+    // half of the random cases have non-Pong traffic from the peer every 1..3 seconds
+    if rng.random_range(0..2) == 0 { 0 } else { rng.random_range(1..=3) }
+}
+
 fn main() {
     let args: Vec<String> = std::env::args().collect();
     std::panic::set_hook(Box::new(|_| {}));
@@ -226,7 +248,7 @@ fn main() {
                     let delays: Vec<i64> = (0..n)
                         .map(|k| if k >= silent_from { -1 } else { rng.random_range(0..=(t.max(i) as i64 + 1)) })
                         .collect();
-                    json!({"I": i, "T": t, "order": if rng.random_range(0..4) == 0 { "ti" } else { "it" }, "delays": delays, "horizon": 30})
+                    json!({"I": i, "T": t, "order": if rng.random_range(0..4) == 0 { "ti" } else { "it" }, "delays": delays, "horizon": 30, "chatter": pick_chatter(&mut rng)})
                 })
                 .collect()
         }
